@@ -564,13 +564,16 @@ fn resize_stream<F: Read + Write + Seek>(
             // chain.  Therefore, we just need to adjust the length of the
             // existing chain.
             let mut chain = minialloc.open_mini_chain(old_start_sector)?;
+            // The chain may be shorter than the recorded length (an earlier
+            // attempt to shrink the stream failed after cutting the chain).
+            let old_end = old_stream_len.min(chain.len());
             chain.set_len(new_stream_len)?;
             debug_assert_eq!(chain.start_sector_id(), old_start_sector);
-            if new_stream_len > old_stream_len {
+            if new_stream_len > old_end {
                 // Zero the rest of the old final mini sector as well as the
                 // (uninitialized) mini sectors that were just added.
-                chain.seek(SeekFrom::Start(old_stream_len))?;
-                write_zeros(&mut chain, new_stream_len - old_stream_len)?;
+                chain.seek(SeekFrom::Start(old_end))?;
+                write_zeros(&mut chain, new_stream_len - old_end)?;
             }
             old_start_sector
         } else {
